@@ -20,12 +20,16 @@ Theorem enum_arms : forall a tg raf vs args t fl,
   vs <> [] ->
   c_type a = None -> c_as a = None ->
   def_body is_upper is_alnum is_numeric R inl flt (DEnum a tg raf vs) args = Ok (t, fl) ->
-  exists arms, t = TUnion arms /\ fl = Some (TParen (TUnion arms)) /\
-               Forall2 (fun v x => variant_gen is_upper is_alnum is_numeric R inl flt args a tg raf v = Ok x) (live_variants vs) arms.
+  exists arms, Forall2 (fun v x => variant_gen is_upper is_alnum is_numeric R inl flt args a tg raf v = Ok x) (live_variants vs) arms /\
+               match arms with
+               | [] => t = TPrim (lit "never") /\ fl = None        (* every variant is skipped *)
+               | _ => t = TUnion arms /\ fl = Some (TParen (TUnion arms))
+               end.
 Proof.
   intros a tg raf vs args t fl Hne Ht Ha H. unfold def_body in H. cbn [attrs_of] in H. rewrite Ht, Ha in H.
   destruct vs as [|v vs]; [contradiction|].
-  apply bind_ok in H as (l & Hl & H). inversion H; subst. exists l. repeat split. apply omap_list_ok. exact Hl.
+  apply bind_ok in H as (l & Hl & H). exists l. split; [apply omap_list_ok; exact Hl|].
+  destruct l; inversion H; subst; split; reflexivity.
 Qed.
 
 (* an enum without variants is `never` *)
